@@ -436,8 +436,8 @@ struct StringStream {
         Char_T         *str  = Storage();
 
 #ifdef HANIAMMAR_QENTEM_ENGINE_VERIF
-        // Verification hook: exact-fit growth.
-        allocate(new_capacity);
+        // Verification hook: exact-fit growth (while the stream is small; beyond that it would make appends quadratic).
+        allocate((new_capacity < SizeT{4096}) ? new_capacity : (new_capacity * SizeT{4}));
 #else
         allocate(new_capacity * SizeT{4});
 #endif
